@@ -455,6 +455,21 @@ class G:
         return {"files": texts, "order": order, "filter": flt}
 
 
+DECL_BUDGET = 90      # definitions + fields + enum members of one schema set (all files)
+
+
+def decl_count(texts: Dict[str, str]) -> int:
+    """number of declarations of a schema set: every non-blank line that is not a bare brace,
+    proto / import / option line"""
+    n = 0
+    for t in texts.values():
+        for l in t.split("\n"):
+            l = l.strip()
+            if l and l not in ("{", "}") and not l.startswith(("proto ", "import ", "option ", "//")):
+                n += 1
+    return n
+
+
 def words_of(texts: Dict[str, str]) -> Set[str]:
     """field names used in the schema set (to decide per language whether Pre holds textually)"""
     out: Set[str] = set()
@@ -466,49 +481,106 @@ def words_of(texts: Dict[str, str]) -> Set[str]:
 
 # ---- evaluation of case files: few coqc at a time, each under a hard memory limit ------------------
 
-COQ_MEM_KB = 4_000_000       # ulimit -v per coqc: a blow-up fails fast instead of starving the machine
+COQ_MEM_KB = int(os.environ.get("VERIF_C10_COQ_MEM_KB", "4000000"))   # ulimit -v per coqc: a blow-up fails fast
 COQ_PARALLEL = 4
 
 
-def run_shards(ck, tag: str, items, header: str, per_shard: int = 6, timeout: int = 300):
-    """items: [(defs, exprs, metas)].  Returns [(meta, code)].  Like pyside.Shards.run, but at most
-    COQ_PARALLEL coqc processes, each wrapped in `ulimit -v`."""
+SHARD_MAX_ITEMS = 6          # schema sets per case file
+SHARD_MAX_CHARS = 120_000    # total text of a case file (tracks the number of declarations and expected values)
+
+
+def pack_shards(items, max_items: int = SHARD_MAX_ITEMS, max_chars: int = SHARD_MAX_CHARS):
+    """greedy packing: a shard holds at most max_items items and at most max_chars characters of Coq text"""
+    shards, cur, size = [], [], 0
+    for it in items:
+        w = len(it[0]) + sum(len(e) for e in it[1])
+        if cur and (len(cur) >= max_items or size + w > max_chars):
+            shards.append(cur)
+            cur, size = [], 0
+        cur.append(it)
+        size += w
+    if cur:
+        shards.append(cur)
+    return shards
+
+
+def run_shards(ck, tag: str, items, header: str, per_shard: int = SHARD_MAX_ITEMS, timeout: int = 300):
+    """items: [(defs, exprs, metas)].  Returns [(meta, code)].  At most COQ_PARALLEL coqc processes, each
+    wrapped in `ulimit -v`.  A shard on which coqc fails (memory / time limit, or anything else) is split in
+    two and retried; only a SINGLE item that still fails is a broken obligation.  Statistics of the run are
+    left in ck.coverage["tie"]["coq_shards"]."""
     from concurrent.futures import ThreadPoolExecutor
+    import threading
     import vlib
-    files, layout = [], []
-    for si in range(0, len(items), per_shard):
-        chunk = items[si:si + per_shard]
-        path = os.path.join(ck.dir, f"{tag}_{si // per_shard}.v")
+    counter = [0]
+    lock = threading.Lock()
+    stats = {"shards_run": 0, "shards_split": 0, "peak_rss_kb": 0, "max_seconds": 0.0, "max_chars": 0}
+
+    def write(chunk) -> str:
+        with lock:
+            k = counter[0]
+            counter[0] += 1
+        path = os.path.join(ck.dir, f"{tag}_{k}.v")
         body = [header]
         exprs: List[str] = []
-        metas: List[Any] = []
         for defs, ex, me in chunk:
             assert len(ex) == len(me)
             body.append(defs)
             exprs.extend(ex)
-            metas.extend(me)
         body.append("Definition results : list Z := " + clist(exprs) + ".")
         body.append("Eval vm_compute in results.")
+        text = "\n".join(body) + "\n"
         with open(path, "w") as f:
-            f.write("\n".join(body) + "\n")
-        files.append(path)
-        layout.append(metas)
+            f.write(text)
+        with lock:
+            stats["max_chars"] = max(stats["max_chars"], len(text))
+        return path
 
-    def one(path: str):
-        cmd = (f"ulimit -v {COQ_MEM_KB}; exec timeout {timeout} coqc -Q {vlib.COQ}/theories BP "
-               f"-Q {vlib.COQ}/gen BPGen {path}")
+    def coqc(path: str):
+        import time as _t
+        t0 = _t.time()
+        cmd = (f"ulimit -v {COQ_MEM_KB}; exec /usr/bin/time -f 'MAXRSS_KB=%M' timeout {timeout} coqc "
+               f"-Q {vlib.COQ}/theories BP -Q {vlib.COQ}/gen BPGen {path}")
         rc, out, err = vlib.run(["bash", "-c", cmd], cwd=os.path.dirname(path), timeout=timeout + 30)
+        m = re.search(r"MAXRSS_KB=(\d+)", err)
+        with lock:
+            stats["shards_run"] += 1
+            stats["max_seconds"] = max(stats["max_seconds"], round(_t.time() - t0, 1))
+            if m:
+                stats["peak_rss_kb"] = max(stats["peak_rss_kb"], int(m.group(1)))
         return rc, out, err
 
+    def solve(chunk):
+        """[(meta, code)] of one chunk, splitting on failure"""
+        metas = [m for _, _, me in chunk for m in me]
+        path = write(chunk)
+        rc, out, err = coqc(path)
+        if rc == 0:
+            codes = vlib.parse_zlist(out, path)
+            if len(codes) != len(metas):
+                raise vlib.Broken(f"case file {os.path.basename(path)}: {len(metas)} cases but {len(codes)} results", out[-1500:])
+            return list(zip(metas, codes))
+        if len(chunk) == 1:
+            raise vlib.Broken(f"coqc failed on {os.path.basename(path)} holding a single schema set (rc={rc}; memory limit "
+                              f"{COQ_MEM_KB} kB, time limit {timeout}s)", (out + err)[-3000:])
+        with lock:
+            stats["shards_split"] += 1
+        half = len(chunk) // 2
+        return solve(chunk[:half]) + solve(chunk[half:])
+
+    timeout = int(os.environ.get("VERIF_C10_COQ_TIMEOUT", timeout))     # development aid: exercise the split path
+    shards = pack_shards(items, max_items=per_shard)
     res = []
+    errors = []
     with ThreadPoolExecutor(max_workers=COQ_PARALLEL) as ex:
-        outs = list(ex.map(one, files))
-    for path, metas, (rc, out, err) in zip(files, layout, outs):
-        if rc != 0:
-            raise vlib.Broken(f"coqc failed on {os.path.basename(path)} (rc={rc}; memory limit {COQ_MEM_KB} kB, "
-                              f"time limit {timeout}s)", (out + err)[-3000:])
-        codes = vlib.parse_zlist(out, path)
-        if len(codes) != len(metas):
-            raise vlib.Broken(f"case file {os.path.basename(path)}: {len(metas)} cases but {len(codes)} results", out[-1500:])
-        res.extend(zip(metas, codes))
+        futs = [ex.submit(solve, sh) for sh in shards]
+        for f in futs:
+            try:
+                res.extend(f.result())
+            except vlib.Broken as b:
+                errors.append(b)
+    stats["shards_planned"] = len(shards)
+    ck.coverage.setdefault("tie", {})["coq_shards"] = stats
+    for b in errors:
+        ck.broken(b)          # the other shards are still interpreted
     return res
